@@ -8,21 +8,36 @@ PROPS = {
                      "C16_node_packing_roundtrip",
                      "C16_set_algebra_bit", "C16_set_algebra_range", "C16_set_algebra_negated",
                      "C16_set_algebra_or", "C16_set_algebra_and", "C16_set_algebra_or_minus",
-                     "C16_to_list_sorted_members", "C16_first_bit_set"],
+                     "C16_to_list_sorted_members", "C16_first_bit_set",
+                     "C16_byte_level_entry_bytes", "C16_byte_level_spelling_unique", "C16_byte_fallback_hex"],
         "rule": "trie cases: random vocabulary (duplicates, empty entries, prefix chains, long runs, "
                 "special-marker tokens, sizes around multiples of 32) x random byte DFA x pre-pushed stack x "
-                "start prefixes; svob cases: random op sequences on 3 registers around word boundaries. "
+                "start prefixes; svob cases: random op sequences on 3 registers around word boundaries; "
+                "tokenizer descriptions synthesised offline: byte-level BPE tokenizer.json (all 256 alphabet entries in random order, random "
+                "merge tables, special / look-alike / plain added tokens), byte-fallback tokenizer.json (<0xNN> for every byte, pieces with "
+                "the replaced space character, Prepend normaliser, specials), tiktoken rank tables (shuffled ranks, holes, specials, "
+                "vocabulary-size override): every token's bytes against what the entry stands for (the GPT-2 table written independently "
+                "in the harness) and against the model; tokenise-then-concatenate returns the text (random bytes incl. invalid UTF-8 for "
+                "byte-level and tiktoken, valid UTF-8 for byte-fallback). "
                 "distinct = distinct case text; non-trivial = every trie case, svob cases where some vector "
                 "is neither empty nor full",
         "trusted_base": ["modelled, not verified: toktrie/src/{svob,toktree,recognizer}.rs "
-                         "(builder arena as a tree, flattened walk as list recursion with skip counter)"],
+                         "(builder arena as a tree, flattened walk as list recursion with skip counter)",
+                         "modelled, not verified: toktrie_hf_tokenizers/src/lib.rs build_char_map / from_tokenizer entry decoding and "
+                         "toktrie_tiktoken/src/lib.rs TikTokenBPE::new slot filling (coq/Tokenizers.v; self-mapped ranges translated from "
+                         "the source); the tokenizers / tiktoken-rs libraries themselves (JSON parsing, BPE encoding) are external and only "
+                         "exercised by the round-trip checks"],
         "assumptions": ["the per-token oracle in the harness (DFA run) is the naive semantics"],
         "level_text": "Theorems for all vocabularies / acceptors / stacks / masks: the flattened-trie walk equals the per-token test, "
                       "restores the recogniser stack, never leaves an id >= vocab; builder stores exactly the vocabulary; "
-                      "SimpleVob operations are set algebra. Tied to toktrie by running the extracted model and the "
-                      "implementation on the same random vocabularies, DFAs and op sequences every run.",
+                      "SimpleVob operations are set algebra; the byte-level alphabet (ranges read from the adapter) is a bijection, so every "
+                      "byte string has exactly one spelling and an entry stands for exactly the bytes it spells; <0xNN> is the byte NN. "
+                      "Tied to toktrie and the adapters by running the extracted model and the implementation on the same random "
+                      "vocabularies, DFAs, op sequences and synthesised tokenizer descriptions every run.",
         "level_note": "Model is hand-written (coq/Svob.v, coq/Trie.v); Rust code is modelled, not verified; assurance = "
-                      "min(theorems, correspondence). Tokenizer-adapter clause: see DESIGN.md.",
+                      "min(theorems, correspondence). Tokenizer descriptions: the entry-to-bytes maps are modelled and proved; 'tokenising text "
+                      "and concatenating the token bytes returns the text' is checked on the implementation only (it runs through the "
+                      "external tokenizers / tiktoken-rs encoders).",
     },
     "C17": {
         "runner": "RunFfi",
